@@ -516,4 +516,105 @@ theorem clStrict_digits (v : Bytes) (h : clStrict v = true) : ∀ c ∈ v, isDig
     · subst h1; exact h.1.1
     · exact (List.all_eq_true.mp h.2) c h1
 
+/-! ### the response side -/
+
+theorem reasons_clean : ∀ p ∈ Gen.C06.reasons, p.2.all (fun c => c != 10 && c != 13) = true := by decide
+
+theorem reason_clean (st : Nat) : clean (reason st) := by
+  unfold reason
+  cases hf : Gen.C06.reasons.find? (fun p => p.1 == st) with
+  | none => intro c hc; simp at hc
+  | some p =>
+    have hm := List.mem_of_find?_eq_some hf
+    have := reasons_clean p hm
+    intro c hc
+    simp at hc
+    have := (List.all_eq_true.mp this) c hc
+    simpa using this
+
+/-- the reference reader's "no body whatever the fields say" test -/
+def bodilessR (st : Nat) (method : Bytes) : Bool :=
+  asciiUpper method == sHead || (100 ≤ st && st ≤ 199) || st = 204 || st = 304
+    || (asciiUpper method == sConnect && 200 ≤ st && st ≤ 299)
+
+theorem framingResp_nocl (st : Nat) (method : Bytes) (fs : List Field) (hte : fs.filter (nameIs sTE) = [])
+    (hcl : fs.filter (nameIs sCL) = []) :
+    Ref.framingResp sHttp11 st method fs = some (if bodilessR st method then .none else .eof) := by
+  unfold Ref.framingResp bodilessR
+  simp only [hte, hcl, List.map_nil, List.isEmpty_nil, Bool.not_true, Bool.false_and, Bool.false_eq_true, if_false,
+    if_true]
+  split <;> rfl
+
+theorem framingResp_cl (st : Nat) (method : Bytes) (fs : List Field) (v : Bytes) (n : Nat)
+    (hte : fs.filter (nameIs sTE) = []) (hcl : (fs.filter (nameIs sCL)).map (·.2) = [v])
+    (hd : ∀ c ∈ v, isDigit c = true) (hn : Ref.parseDec v = some n) :
+    Ref.framingResp sHttp11 st method fs = some (if bodilessR st method then .none else .cl n) := by
+  have hi := digits_item v hd
+  have e : ([v].flatMap (splitOn 44)).map stripOws = [v] := by
+    have := hi.1; rw [hi.2] at this; simpa using this
+  unfold Ref.framingResp bodilessR
+  simp only [hte, hcl, e, List.map_nil, List.isEmpty_nil, Bool.not_true, Bool.false_and, Bool.false_eq_true, if_false,
+    List.isEmpty_cons, List.map_cons, hn, List.all_nil, if_true]
+  split <;> rfl
+
+/-- A response head written by `assembleResponseHead` from clean parts, followed by a payload that matches the framing
+    the reference reader derives (nothing; exactly the announced length; or everything up to the close of the
+    connection), is read as exactly that one response. -/
+theorem ref_parse_resp_assembled (line : Bytes) (st : Nat) (rsn method : Bytes) (fs : List Field) (payload : Bytes)
+    (fr : Ref.RFraming) (eof : Bool)
+    (hline : clean line) (hlne : line ≠ [])
+    (hsl : Ref.parseStatusLine line = some (sHttp11, st, rsn))
+    (hfinal : 200 ≤ st) (hconn : (asciiUpper method == sConnect) = false)
+    (hfs : ∀ f ∈ fs, fieldClean f)
+    (hfr : Ref.framingResp sHttp11 st method (fs.map readBack) = some fr)
+    (hb : (fr = .none ∧ payload = []) ∨ fr = .cl payload.length ∨ (fr = .eof ∧ eof = true)) :
+    Ref.parseResp eof [method] (line ++ crlf ++ fieldLines fs ++ crlf ++ payload)
+      = some [⟨sHttp11, st, rsn, fs.map readBack, payload⟩] := by
+  let flines := fs.map fun f => f.1 ++ colonSp ++ f.2
+  have hbytes : line ++ crlf ++ fieldLines fs ++ crlf ++ payload
+      = (line :: flines).flatMap (· ++ crlf) ++ crlf ++ payload := by
+    simp [fieldLines_eq, flines, List.flatMap_cons, List.append_assoc]
+  have hlines : ∀ l ∈ line :: flines, clean l ∧ l ≠ [] := by
+    intro l hl
+    rcases List.mem_cons.mp hl with h | h
+    · subst h; exact ⟨hline, hlne⟩
+    · rcases List.mem_map.mp h with ⟨f, hf, rfl⟩
+      have hc := hfs f hf
+      refine ⟨?_, ?_⟩
+      · have hcs : clean colonSp := by intro c hc; revert c; decide
+        exact clean_append (clean_append (token_clean f.1 hc.1) hcs) (fun c hcm => ⟨(hc.2 c hcm).2.1, (hc.2 c hcm).2.2⟩)
+      · have := token_ne_nil f.1 hc.1
+        cases hn : f.1 with
+        | nil => exact absurd hn this
+        | cons a b => simp
+  have hlen : (line :: flines).length < ((line :: flines).flatMap (· ++ crlf) ++ crlf ++ payload).length + 1 := by
+    have := lines_length_le (line :: flines)
+    simp only [List.length_append]
+    omega
+  have hhead := headLines_fieldLines (line :: flines) payload _ hlines hlen
+  have hpf : Ref.parseFields flines = some (fs.map readBack) :=
+    parseFields_lines fs (fun f hf => ⟨(hfs f hf).1, fun c hc => ((hfs f hf).2 c hc).1⟩)
+  have hne : ((line :: flines).flatMap (· ++ crlf) ++ crlf ++ payload).isEmpty = false := by
+    cases line with
+    | nil => exact absurd rfl hlne
+    | cons c cs => simp [List.flatMap_cons]
+  have hnot : ¬(100 ≤ st ∧ st ≤ 199 ∧ st ≠ 101) := by omega
+  have h101 : (st = 101) = False := by simp; omega
+  unfold Ref.parseResp
+  rw [hbytes]
+  generalize hB : (line :: flines).flatMap (· ++ crlf) ++ crlf ++ payload = B at *
+  unfold Ref.parseResponses
+  simp only [hne, hhead, hsl, hpf, List.headD_cons, hfr, hconn, hnot, decide_false, Bool.false_eq_true, if_false,
+    List.drop_one, List.tail_cons, Bool.false_and, Bool.or_false, decide_eq_true_eq]
+  have hemp : ∀ f e m, Ref.parseResponses (f + 1) e m [] = some [] := by
+    intro f e m; simp [Ref.parseResponses]
+  have hst : ¬ st = 101 := by omega
+  rcases hb with ⟨h1, h2⟩ | h1 | ⟨h1, h2⟩
+  · subst h1; subst h2
+    simp [hst, hemp]
+  · subst h1
+    simp [hst, hemp]
+  · subst h1; subst h2
+    simp [hst, hemp]
+
 end MitmVerif.C06
